@@ -1,9 +1,25 @@
 """C03 - BIP32 conformance of HD key derivation."""
 CONTRACT_MODULES = ['contracts.keys_hd']
-CONTRACTS = ['bitcoinlib.keys.HDKey.child_private', 'bitcoinlib.keys.HDKey.child_public']
+CONTRACTS = ['bitcoinlib.keys.HDKey.child_private', 'bitcoinlib.keys.HDKey.child_public'] + [
+    'bitcoinlib.keys.HDKey.subkey_for_path[path%d-%s-%s]' % (L, k, '_'.join(m or 'none' for m in ms))
+    for L, k, ms in [(1, k, [m]) for m in ['', "'", 'h', 'H', 'p', 'P'] for k in ('priv', 'pub')] +
+                    [(2, 'priv', ['', '']), (2, 'priv', ["'", '']), (2, 'priv', ['', 'h'])]]
 LEVEL = 'proof'
-LEVEL_TEXT = 'placeholder'
-LEVEL_NOTE = 'placeholder'
-CLAIMED = False
+LEVEL_TEXT = ('HDKey.child_private and HDKey.child_public are verified against CKDpriv / CKDpub of the BIP32 text for every parent key, chain code, '
+              'depth and every index in [0, 2^32): key material, chain code, depth, parent fingerprint and child number are the specified '
+              'ones, indices >= 2^31 are hardened, invalid indices and hardened-from-public requests raise. HDKey.subkey_for_path is verified '
+              'for one path item of every marker spelling from a private and from a public parent (the loop body); two-item paths are only '
+              'evaluated natively (bounded). Three defects found this way were repaired (fix: commits).')
+LEVEL_NOTE = ('Uninterpreted / assumed: HMAC-SHA512, hash160, secp256k1 group operations (fastecdsa), the HDKey(...) constructor call at the end '
+              'of the derivation functions (assumed to record its arguments; see C12/C04), change_base(10->16) via the hex() model. '
+              'Public/private commutation N(CKDpriv(k,i)) = CKDpub(N(k),i) follows from the two verified postconditions plus the group '
+              'homomorphism (a*G + b*G = (a+b)*G), which is an assumption about the curve, not mechanised here. The point-at-infinity child '
+              '(probability 2^-256, no witness constructible) is assumed away in child_public. from_seed / master-key import: not covered.')
+NOT_COVERED = ['HDKey.from_seed', 'paths longer than one item (native evaluation only)', 'point at infinity in CKDpub']
 FUZZ_QUICK = 400
 FUZZ_THOROUGH = 2000
+
+def _trusted():
+    from contracts import external
+    return list(external.TRUSTED) + ['HDKey(...) constructor: assumed contract contracts/keys_hd._hdkey_ctor']
+TRUSTED = _trusted()
